@@ -533,4 +533,9 @@ def rule_g(ctx: Ctx) -> None:
     live_list(ctx, 'C04.g')
 
 
-RULES = [rule_a, rule_b, rule_c, rule_d, rule_e, rule_f, rule_g]
+def rule_h(ctx: Ctx) -> None:
+    from .wild import mode_blind_reports
+    mode_blind_reports(ctx, 'C04.h')
+
+
+RULES = [rule_a, rule_b, rule_c, rule_d, rule_e, rule_f, rule_g, rule_h]
